@@ -80,7 +80,7 @@ class Sub:
     """
 
     def __init__(self, name, body, strategy=None, quick=200, thorough=2000, shards_quick=1,
-                 shards_thorough=16, enumerate=None, machine=None, steps=(20, 40), doc=""):
+                 shards_thorough=16, enumerate=None, machine=None, steps=(20, 40), doc="", custom=None):
         self.name = name
         self.body = body
         self.strategy = strategy
@@ -89,6 +89,8 @@ class Sub:
         self.shards = {"quick": shards_quick, "thorough": shards_thorough}
         self.enumerate = enumerate
         self.machine = machine
+        # custom(tier, seed, shard, nshards, rec) -> failure tuple or None (external engines, e.g. atheris)
+        self.custom = custom
         self.steps = {"quick": steps[0], "thorough": steps[1]}
         self.doc = doc
 
@@ -191,7 +193,9 @@ def run_shard(args):
     rec = Rec()
     failure = None
     try:
-        if sub.enumerate is not None:
+        if sub.custom is not None:
+            failure = sub.custom(tier, seed, shard, nshards, rec)
+        elif sub.enumerate is not None:
             failure = _run_enumerated(sub, tier, shard, nshards, rec)
         elif sub.machine is not None:
             failure = _run_machine(sub, tier, seed, rec, budget_s)
@@ -361,7 +365,8 @@ def main(check_id, tier, replay=None, only=None):
     per_sub = {s.name: dict(evaluations=0, hashes=set(), labels=collections.Counter(), skips=collections.Counter(),
                             known=collections.Counter(), samples=[], budget_skipped=0, shards=0,
                             exhaustive=s.enumerate is not None, kind=("enumerated" if s.enumerate is not None else
-                                                                     "stateful" if s.machine is not None else "generated"))
+                                                                     "stateful" if s.machine is not None else
+                                                                     "fuzzed" if s.custom is not None else "generated"))
                for s in subs}
 
     # 1. regression replays (plain calls, no Hypothesis)
